@@ -23,6 +23,13 @@ def final(env):
             # accepted by a process that had already been reaped: nobody
             # ever matches the job to its dead owner
             sig = 'F8:ack-after-reap'
+        elif env.cfg.get('pool', {}).get('synack') and \
+                rec['kind'] != 'apply' and any(
+                    w.alive and w.phase == 'syn' and w.task[0] == j
+                    for w in env.workers.values()):
+            # handshake enabled: the accept message of a map/imap part is
+            # never answered, its worker waits for the answer for ever
+            sig = 'F35:map-part-accept-never-answered-under-handshake'
         elif env.closed and not lost and not any(
                 p.get('state') in ('taken', 'done', 'putfail')
                 for p in rec['parts'].values()) and \
